@@ -179,6 +179,38 @@ def run(chk):
                 mfail.append((c, "%s refuses usable input" % tool, d[1]))
             else:
                 tdis.append(d)
+    # ---- the command line itself: argument vectors that cannot be used end with a message and status 1; the document given
+    # as a file path is the document given on standard input
+    exe = {"xq": os.path.join(exdir, "xq"), "xe": os.path.join(exdir, "xe")}
+    import tempfile
+    doc_ok = "<r a='1'><b>t</b></r>"
+    tmpd = tempfile.mkdtemp(prefix="c17_", dir=lib.WORK)
+    fpath = os.path.join(tmpd, "doc.xml")
+    open(fpath, "w").write(doc_ok)
+    badv = [[], ["--xpath"], ["--xpath", "/", "--xpath", "/"], ["--setns"], ["--xpath", "/", "--setns", "p"],
+            ["--xpath", "/", "--setns", "p=urn:x"], ["--xpath", "/", "--setns", "foo:p=urn:x"], ["--xpath", "/", fpath, fpath],
+            ["--xpath", "/", os.path.join(tmpd, "no-such-file.xml")], ["--xpath", "/", tmpd], ["--nosuch-option-" + "x" * 5000, "--xpath", "/"]]
+    nbad = 0
+    for tool in ("xq", "xe"):
+        extra = [["--xpath", "/r", "--value"], ["--xpath", "/r", "--value", "v", "--value", "w"], ["--xpath", "/r"]] if tool == "xe" else []
+        for av in badv + extra:
+            av2 = list(av) + (["--value", "v"] if tool == "xe" and av in badv else [])
+            rc, out, err = run_tool(exe[tool], av2, doc_ok)
+            cls, _ = classify(rc, out, err)
+            nbad += 1
+            chk.count(["argv", tool] + av2, nontrivial=True)
+            if cls != "fail":
+                mfail.append(((tool, doc_ok, "", " ".join(av2)[:200], ""), "%s does not end with an error message and status 1 on an unusable "
+                              "command line" % tool, "arguments: %r\noutcome: %s" % (av2[:6], cls)))
+        base = ["--no-indent", "--xpath", "/r/b"] + (["--value", "v"] if tool == "xe" else [])
+        a = classify(*run_tool(exe[tool], base, doc_ok))
+        b = classify(*run_tool(exe[tool], base + [fpath], ""))
+        if a != b or a[0] != "ok":
+            mfail.append(((tool, doc_ok, "", "/r/b", "v"), "%s answers differently for the document as a file and on standard input" % tool,
+                          "stdin: %r\nfile: %r" % (a, b)))
+    import shutil
+    shutil.rmtree(tmpd, ignore_errors=True)
+    chk.cov["command_lines"] = "%d unusable argument vectors per run (missing values, repeated options, bad --setns, two files, missing file, a directory)" % nbad
     chk.cov["outcomes"] = dict(sorted(hist.items()))
     chk.cov["rule"] = ("%d runs of the real xq / xe example binaries (built from the working tree; --no-indent, --setns bindings) on "
                        "generated namespace/DTD documents x selecting paths (fixed list + generated), scalar expressions, broken "
